@@ -913,6 +913,8 @@ class SpecLib:
             return [sort_of(kind)]
         if kind == "int":
             return [I]
+        if kind == "bool":
+            return [B]
         if kind.startswith("opt:"):
             return [B] + self._flat_sorts(kind[4:])
         if kind in ("bytes", "str"):
@@ -932,6 +934,8 @@ class SpecLib:
             return [unwrap(kind, v)]
         if kind == "int":
             return [unwrap("int", v)]
+        if kind == "bool":
+            return [unwrap("bool", v)]
         if kind.startswith("opt:"):
             if v is NONE:
                 return [z3.BoolVal(True)] + [z3.Empty(SeqI) if kind[4:] in ("str", "bytes") else z3.IntVal(0)]
@@ -958,6 +962,9 @@ class SpecLib:
         if kind == "int":
             t = z3.Int(fresh_name("rf_" + nm))
             return [t], VInt(t)
+        if kind == "bool":
+            t = z3.Bool(fresh_name("rf_" + nm))
+            return [t], VBool(t)
         if kind.startswith("opt:"):
             ts, v = self._formal(kind[4:], nm)
             b = z3.Bool(fresh_name("rf_" + nm + "_none"))
